@@ -1,7 +1,7 @@
 EXPLANATION = ('C06: the real WellConnections::loadCOMPDAT is driven through its public signature with a hand-built DeckRecord and a real ScheduleGrid/CompletedCells cell; '
   'geometry, permeabilities, NTG, skin, diameter, CF, Kh, r0 and the given/defaulted pattern are symbolic; the stored CTFProperties are checked against the Peaceman relation and the independently written default formulas.')
 BOUNDS = 'one COMPDAT record, K1=K2, directions X/Y/Z (harness split), all positive real cell data, all 2^5 given/defaulted patterns (symbolic flags), values of either sign for CF/Kh'
-OUTSIDE = 'COMPDAT parsing, CompletedCells capture from a real EclipseGrid/FieldPropsManager, WELOPEN/WPIMULT well selection, IEEE rounding, unit conversion of the items (dimension factor 1; see C02)'
+OUTSIDE = 'COMPDAT parsing, CompletedCells capture from a real EclipseGrid/FieldPropsManager, well selection by name pattern in the WELOPEN/WPIMULT keyword handlers (the per-well record matching is covered), IEEE rounding, unit conversion of the items (dimension factor 1; see C02)'
 ASSUMPTIONS = ['libm uninterpreted; axioms: sqrt(t)^2=t, exp>0, log(exp t)=t, t>0 => exp(log t)=t, pow(x,y)>0 for x>0', 'rw < r0 (the code clamps with min(rw,r0)); relation checked to 1e-8 relative because inverse_peaceman uses an 8-digit pi',
                'std::unordered_map rehash policy (_Prime_rehash_policy) modelled: grow when elements exceed buckets']
 TUS = ['opm/input/eclipse/Schedule/Well/Connection.cpp', 'opm/input/eclipse/Schedule/ScheduleGrid.cpp', 'opm/input/eclipse/Schedule/CompletedCells.cpp', 'opm/input/eclipse/Deck/DeckRecord.cpp',
@@ -11,4 +11,14 @@ def jobs(tier):
     out = []
     for d, n in ((0, 'X'), (1, 'Y'), (2, 'Z')):
         out.append(dict(name='compdat_dir%s' % n, src='h_compdat.cpp', defs={'DIRN': d}, entry='h_compdat', tus=TUS, fp='real', loopmax=3000, maxsteps=6000000, bounds='direction %s' % n))
+    WT = ['opm/input/eclipse/Schedule/Well/Well.cpp', 'opm/input/eclipse/Units/UnitSystem.cpp', 'opm/input/eclipse/Units/Dimension.cpp', 'opm/common/utility/String.cpp', 'opm/input/eclipse/Schedule/ScheduleTypes.cpp',
+          'opm/common/utility/TimeService.cpp'] + ['opm/input/eclipse/Schedule/Well/%s.cpp' % n for n in ('Connection', 'WDFAC', 'WINJMULT', 'WVFPDP', 'WVFPEXP', 'WellBrineProperties', 'WellConnections',
+          'WellEconProductionLimits', 'WellEnums', 'WellFoamProperties', 'WellInjectionProperties', 'WellMICPProperties', 'WellPolymerProperties', 'WellProductionProperties', 'WellTracerProperties', 'FilterCake', 'PAvg')] + [
+          'opm/input/eclipse/Schedule/MSW/WellSegments.cpp', 'opm/input/eclipse/Schedule/MSW/Segment.cpp', 'opm/input/eclipse/Deck/UDAValue.cpp', 'opm/input/eclipse/Schedule/VFPProdTable.cpp', 'opm/input/eclipse/EclipseState/Phase.cpp',
+          'opm/input/eclipse/Deck/DeckRecord.cpp', 'opm/input/eclipse/Deck/DeckItem.cpp', 'opm/common/OpmLog/KeywordLocation.cpp', 'opm/input/eclipse/Schedule/ScheduleGrid.cpp', 'opm/input/eclipse/Schedule/CompletedCells.cpp',
+          'opm/input/eclipse/EclipseState/Grid/GridDims.cpp', 'opm/io/eclipse/rst/connection.cpp']
+    out.append(dict(name='wpimult', src='h_wpimult.cpp', defs={'ALLMODES': 0 if tier == 'quick' else 1}, entry='h_wpimult', tus=WT, fp='real', loopmax=100000, maxsteps=400000000, timeout=1500, opts=['--ctors'],
+                    bounds='a well with three connections; record items I J K FIRST LAST each defaulted / entered as 0 (quick: not for I, J) / entered 1..3 (symbolic), all positive factors'))
+    out.append(dict(name='welopen_conn', src='h_wpimult.cpp', defs={'ALLMODES': 0 if tier == 'quick' else 1}, entry='h_welopen_conn', tus=WT, fp='real', loopmax=100000, maxsteps=400000000, timeout=900, opts=['--ctors'],
+                    bounds='a well with three connections; record items I J K C1 C2 each defaulted / entered as 0 / entered 1..3 (symbolic)'))
     return out
